@@ -1,31 +1,224 @@
 /-
   C06 — a client's write changes exactly the addressed element, to the value sent.
   Model: Indi/Model/Sys.lean (`submitMsg`, `react`), Spec: `Spec.Sys.c06Holds` (the check's oracle).
+  Helper lemmas and the side conditions `worldOk06`, `writesOkFor`: Proofs/Sys06.lean.
 
-  INTERIM STATE of the proof side: the links are proved separately and re-exported here,
-    * `Dev.C12_frame`     a client message changes nothing but the elements it validly names,
-    * `Dev.C12_no_raise`  and never raises out of message handling,
-    * `Num.C10_parse_denotes`  the number a text is parsed to is the number it denotes,
-    * `C03_roundtrip`     the message the driver reads is the message the client built, up to normalisation;
-  the composed statement `C06_write` over `Sys.react` is stated in DESIGN.md and is the next proof to land here.
+  `C06_write_for` is the theorem with the side condition on the writes depending on the kind of the submitting
+  peer (in-process or network); `C06_write` is the statement in the drafted shape, with the peer-independent
+  `writesOk`.  Every conjunct of the side conditions is justified by a kernel-checked counterexample below.
 -/
 import Indi.Spec.Sys
-import Indi.Properties.DevA
-import Indi.Properties.C03
-import Indi.Properties.C10
+import Indi.Generated.Registry
+import Indi.Proofs.Sys06
 
 namespace Indi.Sys
-open Indi Indi.Dev Indi.Cli
+open Indi Indi.Dev Indi.Cli Indi.Spec.Sys
 
-theorem C06_link_frame (d : Device) (hwf : Spec.Dev.WF d = true) (m : Msg) :
-    Spec.Dev.c12Holds d m false (fromClient d m).dev = true :=
-  Dev.C12_frame d hwf m
+/-- the submitted values are in the addressed property's domain, whoever submits them: `writesOkFor`
+(Proofs/Sys06.lean) for an in-process peer (text must already be trimmed and non-empty, since the object is
+handed over as it is) and for a network peer (a BLOB must carry a format, since `oneBLOB` requires it on the
+wire).  The conjuncts of `writesOkFor inproc d prop writes`:
+  * `prop` names a property of `d` (found as the driver finds it), which is enabled and not a light property;
+  * no enabled element of it has a refreshing Read handler;
+  * every `(name, value)`: exactly one element of the property has the name; it is enabled; none of its plain
+    Write handlers vetoes; and the value is in the domain (`valOk06`): text as said above; a number text that
+    `checks.number` accepts and whose value is finite (`check_value`); `On`/`Off`; bytes `< 256`. -/
+def writesOk (d : Device) (prop : Str) (writes : List (Str × CVal)) : Bool :=
+  writesOkFor true d prop writes && writesOkFor false d prop writes
 
-theorem C06_link_no_raise (d : Device) (hwf : Spec.Dev.WF d = true) (m : Msg) : (fromClient d m).exc = none :=
-  Dev.C12_no_raise d hwf m
+/-- **C06** (by kind of peer): when peer `ci`, which sees the deployment as it is, submits new values for some
+elements of one property of one device, every driver ends up as `c06Holds` demands -/
+theorem C06_write_for (w : World) (ci : Nat) (dev prop : Str) (writes : List (Str × CVal))
+    (hok : Indi.Sys.worldOk06 w.devs = true) (hs : allSynced w = true) (p : Peer) (hp : w.peers[ci]? = some p)
+    (hw : ∀ d ∈ w.devs, d.name = dev → writesOkFor p.inproc d prop writes = true) :
+    let ds' := (react Generated.registry w (.write ci dev prop writes)).1
+    ds'.length = w.devs.length ∧
+    ∀ p ∈ w.devs.zip ds', c06Holds p.1 dev prop (writes.map fun nv => (nv.1, asValue nv.2)) p.2 = true :=
+  write_core w ci dev prop writes hok hs p hp hw
 
-theorem C06_link_wire (m : Msg) (h : Spec.MsgValid.valid Generated.registry m = true) :
-    Spec.Dev.readsBack Generated.registry m = true :=
-  C03_roundtrip m h
+/-- **C06**: when peer `ci`, which sees the deployment as it is, submits new values for some elements of one
+property of one device, every driver ends up as `c06Holds` demands: exactly those elements of that device take
+the submitted values (text as it travels, numbers numerically equal, BLOBs byte for byte; switches subject to
+the rule), nothing else anywhere changes -/
+theorem C06_write (w : World) (ci : Nat) (dev prop : Str) (writes : List (Str × CVal))
+    (hok : Indi.Sys.worldOk06 w.devs = true) (hs : allSynced w = true) (hci : ci < w.peers.length)
+    (hw : ∀ d ∈ w.devs, d.name = dev → writesOk d prop writes = true) :
+    let ds' := (react Generated.registry w (.write ci dev prop writes)).1
+    ds'.length = w.devs.length ∧
+    ∀ p ∈ w.devs.zip ds', c06Holds p.1 dev prop (writes.map fun nv => (nv.1, asValue nv.2)) p.2 = true := by
+  have hp : w.peers[ci]? = some w.peers[ci] := List.getElem?_eq_getElem hci
+  apply C06_write_for w ci dev prop writes hok hs _ hp
+  intro d hd hn
+  have := hw d hd hn
+  simp only [writesOk, Bool.and_eq_true] at this
+  cases w.peers[ci].inproc
+  · exact this.2
+  · exact this.1
 
 end Indi.Sys
+
+/-! ## satisfiability of the hypotheses, and the counterexamples that justify them (all kernel-checked) -/
+
+namespace Indi.Sys.Ex06
+open Indi Indi.Dev Indi.Cli Indi.Spec.Sys Indi.Sys
+
+def reg := Generated.registry
+
+def el (n : String) (v : Value) (en : Bool := true) (fmt : String := "") (veto : Bool := false)
+    (refresh : Option Value := none) : Dev.Elem :=
+  { d := { name := s n, label := s n, format := s fmt, min := s "0", max := s "0", step := s "0",
+           writeH := if veto then [{ id := 1, async := false, veto := true }] else [], refresh := refresh },
+    value := v, enabled := en }
+
+def vec (n : String) (k : Kind) (elems : List Dev.Elem) (en : Bool := true) : Vec :=
+  { name := s n, label := s n, kind := k, perm := some (s "rw"), timeout := some (s "60"),
+    rule := if k = .switch then some .oneOfMany else none, state := s "Ok", enabled := en, elems := elems }
+
+def dev (n : String) (vecs : List Vec) : Device := { name := s n, groups := [{ name := s "Main", enabled := true, vecs := vecs }] }
+
+/-- peers: network with BLOBs, network without, in-process -/
+def kinds : List (Bool × Bool × Bool) := [(true, false, false), (false, false, false), (false, true, false)]
+
+/-- the conclusion of `C06_write` fails -/
+def fails (w : World) (ci : Nat) (dv prop : String) (writes : List (Str × CVal)) : Bool :=
+  (w.devs.zip (react reg w (.write ci (s dv) (s prop) writes)).1).any fun p =>
+    !c06Holds p.1 (s dv) (s prop) (writes.map fun nv => (nv.1, asValue nv.2)) p.2
+
+/-- all hypotheses of `C06_write` hold -/
+def hyps (w : World) (ci : Nat) (dv prop : String) (writes : List (Str × CVal)) : Bool :=
+  worldOk06 w.devs && allSynced w && decide (ci < w.peers.length) &&
+  w.devs.all fun d => d.name != s dv || writesOk d (s prop) writes
+
+/-! ### a non-trivial instance: two drivers, all four writable kinds, network and in-process peers -/
+
+def mount : Device := dev "mount"
+  [vec "COORD" .number [el "ra" (.num 1 false) true "%9.6m", el "dec" (.num 2 false) true "%5.2f", el "hid" (.num 0 true) false "%d"],
+   vec "NAME" .text [el "site" (.text (s "home")), el "obs" .none],
+   vec "TRACK" .switch [el "on" (.text (s "Off")), el "off" (.text (s "On"))],
+   vec "FW" .blob [el "image" .none]]
+
+def cam : Device := dev "cam" [vec "NAME" .text [el "site" (.text (s "x"))]]
+
+def w0 : World := start reg [mount, cam] kinds
+
+example :
+    hyps w0 0 "mount" "COORD" [(s "ra", .text (s "12:30:15.5")), (s "dec", .text (s "-3.25")), (s "ra", .text (s "7"))] = true ∧
+    hyps w0 2 "mount" "COORD" [(s "dec", .text (s "+.5\n"))] = true ∧
+    hyps w0 2 "mount" "NAME" [(s "obs", .text (s "me and you"))] = true ∧
+    hyps w0 1 "mount" "TRACK" [(s "on", .text (s "On"))] = true ∧
+    hyps w0 0 "mount" "FW" [(s "image", .blob [1, 2, 255] (some (s ".bin")))] = true := by
+  decide +kernel
+
+
+/-! ### counterexamples: what goes wrong without each conjunct (every world below is synchronised by the real
+handshake, `allSynced`, and the conclusion of `C06_write` fails) -/
+
+def base (w : World) : Bool := allSynced w
+
+/-- `worldOk06` (distinct property names): the driver has two enabled properties named `P` with the same content;
+a client sees one property `P`.  It writes `x := "new"`: `driver._vectors["P"]` is the second one, which takes the
+value; the first keeps `"old"`. -/
+def wNames : World := start reg [dev "d" [vec "P" .text [el "x" (.text (s "old"))], vec "P" .text [el "x" (.text (s "old"))]]] kinds
+theorem C06_needs_distinct_property_names :
+    base wNames = true ∧ worldOk06 wNames.devs = false ∧
+    (wNames.devs.all fun d => writesOk d (s "P") [(s "x", .text (s "new"))]) = true ∧
+    fails wNames 0 "d" "P" [(s "x", .text (s "new"))] = true := by decide +kernel
+
+/-- exactly one element has the name: the property has an enabled element `x` and a disabled element also named
+`x`.  The client knows the enabled one and writes it; `vector._elements_by_name["x"]` is the later, disabled one,
+which takes the value; the enabled one keeps `"old"`. -/
+def wDup : World := start reg [dev "d" [vec "P" .text [el "x" (.text (s "old")), el "x" (.text (s "hidden")) false]]] kinds
+theorem C06_needs_unique_element_name :
+    base wDup = true ∧ worldOk06 wDup.devs = true ∧ fails wDup 0 "d" "P" [(s "x", .text (s "new"))] = true := by
+  decide +kernel
+
+/-- the element is enabled: a disabled element is not in the client's mirror; assigning to it raises (KeyError)
+and nothing is sent. -/
+def wDis : World := start reg [dev "d" [vec "P" .text [el "x" (.text (s "old")), el "y" (.text (s "old")) false]]] kinds
+theorem C06_needs_enabled_element :
+    base wDis = true ∧ worldOk06 wDis.devs = true ∧ fails wDis 0 "d" "P" [(s "y", .text (s "new"))] = true := by
+  decide +kernel
+
+/-- the property is enabled: a disabled property is not in the client's mirror. -/
+def wDisP : World := start reg [dev "d" [vec "P" .text [el "x" (.text (s "old"))] false]] kinds
+theorem C06_needs_enabled_property :
+    base wDisP = true ∧ worldOk06 wDisP.devs = true ∧ fails wDisP 0 "d" "P" [(s "x", .text (s "new"))] = true := by
+  decide +kernel
+
+/-- no vetoing Write handler: a plain Write handler that calls `prevent_default` keeps the old value (by design). -/
+def wVeto : World := start reg [dev "d" [vec "P" .text [el "x" (.text (s "old")) true "" true]]] kinds
+theorem C06_needs_no_veto :
+    base wVeto = true ∧ worldOk06 wVeto.devs = true ∧ fails wVeto 0 "d" "P" [(s "x", .text (s "new"))] = true := by
+  decide +kernel
+
+/-- no refreshing Read handler on an enabled element: the sibling `y` holds `"a"` but its Read handler resets it to
+`"b"` whenever it is read.  The write to `x` publishes the property, which reads `y`: `y` changes although it was not
+written.  (The peers were synchronised by the handshake, which already showed them `"b"`; the driver's stored value
+was still `"a"`.) -/
+def wRefresh : World :=
+  { devs := [dev "d" [vec "P" .text [el "x" (.text (s "old")), el "y" (.text (s "a")) true "" false (some (.text (s "b")))]]],
+    peers := (start reg [dev "d" [vec "P" .text [el "x" (.text (s "old")), el "y" (.text (s "a")) true "" false (some (.text (s "b")))]]] kinds).peers }
+theorem C06_needs_no_refresh :
+    base wRefresh = true ∧ worldOk06 wRefresh.devs = true ∧ fails wRefresh 0 "d" "P" [(s "x", .text (s "new"))] = true := by
+  decide +kernel
+
+def wText : World := start reg [dev "d" [vec "P" .text [el "x" (.text (s "old"))]]] kinds
+
+/-- text from an in-process peer must be trimmed: the object is handed over as it is, the element takes `" a "`,
+while `c06Holds` (text as it travels) expects `"a"`; likewise `""` is stored as `""`, not as absent. -/
+theorem C06_needs_trimmed_text_inproc :
+    base wText = true ∧ worldOk06 wText.devs = true ∧
+    fails wText 2 "d" "P" [(s "x", .text (s " a "))] = true ∧ fails wText 2 "d" "P" [(s "x", .text [])] = true ∧
+    -- the same writes by the network peer are fine
+    fails wText 0 "d" "P" [(s "x", .text (s " a "))] = false ∧ fails wText 0 "d" "P" [(s "x", .text [])] = false := by
+  decide +kernel
+
+/-- blank text over the network: `" "` is serialised, read back by `from_xml` as `""` (C03's finding) and stored as
+`""`, while the normalisation `c06Holds` uses says absent (`None`). -/
+theorem C06_needs_nonblank_text_network :
+    fails wText 0 "d" "P" [(s "x", .text (s " "))] = true := by decide +kernel
+
+def wNum : World := start reg [dev "d" [vec "N" .number [el "x" (.num 1 false) true "%f"]]] kinds
+
+/-- a number text must pass `checks.number` (else `OneNumber(...)` raises in `submit()` and nothing is sent) and
+denote a finite value (else `check_value` raises and the element keeps its value) -/
+theorem C06_needs_number_domain :
+    base wNum = true ∧ worldOk06 wNum.devs = true ∧
+    fails wNum 0 "d" "N" [(s "x", .text (s " 3 "))] = true ∧
+    fails wNum 0 "d" "N" [(s "x", .text (s "1e5"))] = true ∧
+    fails wNum 0 "d" "N" [(s "x", .text ('1' :: List.replicate 400 '0'))] = true ∧
+    fails wNum 0 "d" "N" [(s "x", .text (s "3"))] = false := by
+  decide +kernel
+
+def wBlob : World := start reg [dev "d" [vec "B" .blob [el "x" .none]]] kinds
+
+/-- a BLOB written by a network peer must carry a format (`oneBLOB` without `format`: `from_xml` raises TypeError,
+the message is dropped); the in-process peer's write is fine.  Bytes must be bytes (a model artefact: `300` is
+encoded as `"/A=="` and comes back as `252`). -/
+theorem C06_needs_blob_domain :
+    base wBlob = true ∧ worldOk06 wBlob.devs = true ∧
+    fails wBlob 0 "d" "B" [(s "x", .blob [1] none)] = true ∧
+    fails wBlob 2 "d" "B" [(s "x", .blob [1] none)] = false ∧
+    fails wBlob 0 "d" "B" [(s "x", .blob [300] (some (s ".bin")))] = true := by
+  decide +kernel
+
+def wLight : World := start reg [dev "d" [vec "L" .light [el "x" (.text (s "Ok"))]]] kinds
+
+/-- lights cannot be written -/
+theorem C06_needs_writable_kind :
+    base wLight = true ∧ worldOk06 wLight.devs = true ∧ fails wLight 0 "d" "L" [(s "x", .text (s "Busy"))] = true := by
+  decide +kernel
+
+
+def wSwitch : World := start reg [dev "d" [vec "S" .switch [el "a" (.text (s "On")), el "b" (.text (s "Off"))]]] kinds
+
+/-- REMARK (no counterexample): for switch properties `c06Holds` demands nothing of the values (they are subject
+to the rule, C09), so a rejected value (`OneSwitch(value="Maybe")` raises in `submit()`, nothing is sent) does not
+falsify the statement.  `valOk06` nevertheless asks for `On`/`Off`: it is what makes the part accepted, and the
+proof goes through the submitted message. -/
+theorem C06_switch_values_remark :
+    base wSwitch = true ∧ fails wSwitch 0 "d" "S" [(s "a", .text (s "Maybe"))] = false ∧
+    fails wSwitch 0 "d" "S" [(s "b", .text (s "On"))] = false := by
+  decide +kernel
+
+end Indi.Sys.Ex06
